@@ -131,21 +131,23 @@ type Interp struct {
 	queries   int
 
 	// per path
-	prefix    []Decision
-	decisions []Decision
-	pc        []*term.Term
-	pcSet     map[int]bool
-	facts     map[int][]*term.Term
-	steps     int
-	depth     int
-	curInstr  ssa.Instruction
-	varCount  map[string]int
-	pathID    int
-	reach     []string
-	nobl      int
-	concrete  bool
-	trace     []string
-	inputs    []*term.Term
+	prefix       []Decision
+	decisions    []Decision
+	pc           []*term.Term
+	pcSet        map[int]bool
+	facts        map[int][]*term.Term
+	steps        int
+	depth        int
+	curInstr     ssa.Instruction
+	varCount     map[string]int
+	pathID       int
+	reach        []string
+	nobl         int
+	concrete     bool
+	trace        []string
+	inputs       []*term.Term
+	marshalDepth int
+	unmarshalTop map[*Value]int
 }
 
 // Load builds SSA for the module rooted at dir with overlay files injected.
@@ -207,6 +209,8 @@ func (in *Interp) RunInits() (err error) {
 	in.varCount = map[string]int{}
 	in.facts = map[int][]*term.Term{}
 	in.funcsSeen = nil
+	in.unmarshalTop = map[*Value]int{}
+	in.stubsSeen = map[string]int{}
 	defer func() {
 		in.concrete = false
 		if r := recover(); r != nil {
@@ -1122,6 +1126,8 @@ func (in *Interp) runPath(fn *ssa.Function, args []Value, prefix []Decision, id 
 	in.nobl = 0
 	in.trace = nil
 	in.inputs = nil
+	in.marshalDepth = 0
+	in.unmarshalTop = map[*Value]int{}
 	pr.ID = id
 	defer func() {
 		pr.Steps = in.steps
